@@ -35,6 +35,8 @@ def run(cx):
     # lost unreliable packets closed for ever
     from props.C02 import inst_resync_guard
     inst_resync_guard(cx, "C11.n")
+    from props.shared import window_walks
+    window_walks(cx, "C11.o")
 
 
 def window_limited_still_syncs(cx, iid):
@@ -142,7 +144,7 @@ def ack_advance_exact(cx, iid):
         b = R.body("FrameQueue::advance_transfer_window")
         fb = cx.fa(b)
         culls = call_sites(b, "FrameQueue::cull_log_entries")
-        LD = r"u32::wrapping_sub\(u32::wrapping_sub\(arg1\.window\.base_id,arg1\.window\.tail_size\),FrameLog::base_id\(arg1\.frame_log\)\)"
+        LD = r"u32::wrapping_sub\(u32::wrapping_sub\((?:arg1\.window\.base_id|arg2),arg1\.window\.tail_size\),FrameLog::base_id\(arg1\.frame_log\)\)"
         tl = {l.bb for l, _ in culls}
         for l, lab in culls:
             inst.site(b, l, "cull_log_entries")
